@@ -29,6 +29,13 @@ FUNCTIONS = {
     'C16': [(RR, TR + m) for m in ('addError', 'addFailure', 'addUnexpectedSuccess', 'addSubTest')]
            + [PROTOCOL, RUN_TESTS, RUNNER_LOOP],
     'C19': [(RR, TR + 'startTest'), (RR, TR + 'addSkip'), (RR, TR + 'stopTest')],
+    'C17': [('formatter_c17', 'formatter.XMLOutputFormattingWrapper._record')],
+    'C18': [('features_c18', f) for f in (
+        'garbagecollection.Threshold.global_setup', 'garbagecollection.Threshold.global_teardown',
+        'garbagecollection.Debug.global_setup', 'garbagecollection.Debug.global_teardown',
+        'tb_format.Traceback.global_setup', 'tb_format.Traceback.global_teardown',
+        'coverage.TestTrace.start', 'coverage.TestTrace.stop', 'runner.Runner.run')]
+           + [(RR, TR + 'stopTest'), (RR, TR + '_restoreStdStreams'), PROTOCOL],
     'C09': [('find_c09', 'find.tests_from_suite'), ('find_c15', 'options.get_options')],
     'C11': [('shuffle_c11', 'shuffle.Shuffle.global_setup')],
     'C15': [('find_c15', 'find.remove_stale_bytecode'), ('find_c15', 'options.get_options')],
@@ -164,6 +171,30 @@ MANIFEST = {
                 "get_options tail: --usecompiled implies --keepbytecode.",
         'note': COMMON_NOTE + "Assumed: walk_with_symlinks/os.walk semantics incl. in-place pruning of __pycache__ and ignored "
                 "directories; os.unlink removes exactly its argument.",
+    },
+    'C17': {
+        'text': "Proof of the counting invariant: XMLOutputFormattingWrapper._record appends exactly one test case per "
+                "recorded result and keeps, per suite, errors == number of cases with an error and failures == number of "
+                "cases with a failure (counts are specification functions defined by recursion over the list); the case "
+                "carries a failure / an error iff one was passed. Syntactic obligations on the real source: each of "
+                "test_success/test_failure/test_error records once; writeXMLReports takes the attributes from these "
+                "counters, writes one testcase per case, and passes every attribute and text through xml_safe. "
+                "Well-formedness itself and the name parsers are bounded (native oracle over hostile strings).",
+        'note': COMMON_NOTE + "Assumed: ElementTree serialisation; the invariant holds for suite infos stored earlier "
+                "(induction over the call history, _record is the only mutation site).",
+        'category': 'proof',
+    },
+    'C18': {
+        'text': "Proof: for gc thresholds, gc debug flags, the traceback functions and the sys/threading trace hooks the "
+                "feature's global_setup saves exactly the current ghost value and its teardown (TestTrace.stop for coverage) "
+                "writes that value back; Runner.run: once the test phase has begun (ghost flag set where the try is entered) "
+                "every feature has had early_teardown and global_teardown on every exit (normal, exception, "
+                "KeyboardInterrupt), teardown only after all set-ups; sys.stdout/sys.stderr: stopTest restores on every "
+                "protocol path (C13 contracts). Syntactic: the test phase is the body of the try/finally; warnings are "
+                "changed only inside catch_warnings().",
+        'note': COMMON_NOTE + "Assumed: gc/sys/threading/traceback functions read/write exactly the modelled state; "
+                "teardown methods do not raise; tests do not change these globals themselves; Profiling and the "
+                "composition over concrete option subsets are bounded (native oracle).",
     },
     'C19': {
         'text': "Proof of the report computation: at the test_threads call site new_threads is non-empty and contains "
